@@ -10,6 +10,7 @@ import (
 	secp256k1 "gitlab.com/yawning/secp256k1-voi"
 	"gitlab.com/yawning/secp256k1-voi/internal/field"
 	"gitlab.com/yawning/secp256k1-voi/secec"
+	"gitlab.com/yawning/secp256k1-voi/secec/bitcoin"
 )
 
 // Public-API-only build (see deep_on.go): every deep section is guarded by `if deep`, so none of the stubs below is ever called.
@@ -59,3 +60,19 @@ func idRep(y *big.Int) *secp256k1.Point                   { return secp256k1.New
 func clonePt(p *secp256k1.Point) *secp256k1.Point         { return secp256k1.NewPointFrom(p) }
 
 func deepImages(sh *shared) map[string][]byte { panic(errNoDeep) }
+
+// the exported signing path with the auxiliary randomness supplied through the reader; self-verification is the exported Verify;
+// the signing scalar is d' or n - d' according to the parity of d'G (recomputed here: an untrusted convenience for the log)
+func deepSignSchnorr(aux *[32]byte, sk *bitcoin.SchnorrPrivateKey, msg []byte) ([]byte, error) {
+	return sk.Sign(&fixedReader{append([]byte{}, aux[:]...)}, msg, nil)
+}
+func deepVerifySchnorrSelf(sk *bitcoin.SchnorrPrivateKey, msg, sig []byte) bool {
+	return sk.PublicKey().Verify(msg, sig)
+}
+func deepSchnorrD(sk *bitcoin.SchnorrPrivateKey) []byte {
+	d := sk.Scalar()
+	if secp256k1.NewIdentityPoint().ScalarBaseMult(d).IsYOdd() == 1 {
+		d.Negate(d)
+	}
+	return d.Bytes()
+}
